@@ -57,14 +57,20 @@ class StringFitsStream(Stream):
         return [{'checker': 'CExact', 'policy': pol([['s', '']]), 'field': 'actions', 'what': '', 'rxtable': []},
                 {'checker': 'CFuzzy', 'policy': pol([['s', '']]), 'field': 'actions', 'what': '', 'rxtable': []},
                 {'checker': 'CExact', 'policy': pol([['s', '<get>']]), 'field': 'actions', 'what': 'get', 'rxtable': []},
-                {'checker': 'CFuzzy', 'policy': pol([['s', '<get>']]), 'field': 'actions', 'what': '<g', 'rxtable': []}]
+                {'checker': 'CFuzzy', 'policy': pol([['s', '<get>']]), 'field': 'actions', 'what': '<g', 'rxtable': []},
+                {'checker': 'CExact', 'policy': pol([['s', ' admin']]), 'field': 'actions', 'what': ' admin', 'rxtable': []},
+                {'checker': 'CExact', 'policy': pol([['s', ' admin']]), 'field': 'actions', 'what': 'admin', 'rxtable': []},
+                {'checker': 'CFuzzy', 'policy': pol([['s', 'admin ']]), 'field': 'actions', 'what': 'min ', 'rxtable': []},
+                {'checker': 'CExact', 'policy': pol([['s', ' <get> ']]), 'field': 'actions', 'what': 'get', 'rxtable': []}]
 
     def generate(self, rng, tier):
         n = 2500 if tier == 'quick' else 20000
         for _ in range(n):
             st, en = rng.choice(TAGS)
             words = ['', 'a', st, en, st + en, st + 'get' + en, 'get' + en, st + 'get', 'get', 'Get', 'a b',
-                     st + en + 'x', st + st + 'a' + en + en, 'é', st + '' + en, 'x' + st + 'a' + en]
+                     st + en + 'x', st + st + 'a' + en + en, 'é', st + '' + en, 'x' + st + 'a' + en,
+                     # surrounding white space is part of an element
+                     ' get', 'get ', ' ', '\tget\n', ' ' + st + 'get' + en + ' ', st + ' get ' + en, '\n']
             els = [rng.choice(words) if rng.random() < 0.8 else gen.string(rng, 4, 'ab' + st[0] + en[0])
                    for _ in range(rng.choice([1, 1, 2, 3]))]
             e = rng.choice(els)
@@ -186,7 +192,7 @@ ASSUME = ['str subclasses as elements are outside the universe',
 
 def main(argv):
     return run_check('C06', [StringFitsStream(), CrossTypeStream()], argv, trusted_base=TRUSTED, assumptions=ASSUME,
-                     translated=('checker',))
+                     translated=('checker', 'parser', 'policy'))
 
 
 if __name__ == '__main__':
